@@ -13,6 +13,7 @@ import (
 	"testing"
 	"time"
 
+	cmtproto "github.com/cometbft/cometbft/proto/tendermint/types"
 	"github.com/cosmos/cosmos-sdk/codec"
 	sdk "github.com/cosmos/cosmos-sdk/types"
 )
@@ -42,7 +43,11 @@ func genesisRoundTrip(w *World, ctx sdk.Context, name string) (ok bool, why stri
 			ok, why = false, fmt.Sprint("panic: ", r)
 		}
 	}()
-	bz := ex.ExportGenesis(ctx, w.App.AppCodec())
+	// the node's own export (app/export.go) runs ExportGenesis on a context whose header carries the HEIGHT ONLY — no block time,
+	// no proposer —, and the restarted chain imports in its first block: whatever an exporter derives from the block time it derives
+	// from the zero time
+	exportCtx := ctx.WithBlockHeader(cmtproto.Header{Height: ctx.BlockHeight()})
+	bz := ex.ExportGenesis(exportCtx, w.App.AppCodec())
 	im.InitGenesis(ctx, w.App.AppCodec(), bz)
 	return true, ""
 }
